@@ -8,6 +8,7 @@
 #include "codec.hpp"
 #include "gen.hpp"
 #include "inspect.hpp"
+#include "wlan.hpp"
 #include <tins/tins.h>
 #include <tins/loopback.h>
 #include <tins/ip_reassembler.h>
@@ -216,6 +217,11 @@ static uint64_t run_op(const KV& k, ThreadState& ts, uint64_t h) {
             for (auto& f : wpa2_fix(set)) { RadioTap r(f.second.data(), (uint32_t)f.second.size()); bool ok = d.decrypt(r); h = Hu(h, ok); if (ok) { PDU::serialization_type s = r.serialize(); h = H(h, s.data(), s.size()); } }
             h = Hu(h, d.get_keys().size());
         }
+        else if (op == "ccmp") {
+            Bytes f = k.bytes("f"), ptk = k.bytes("ptk"), b = k.bytes("bss"), sa = k.bytes("sta"); ptk.resize(80, 0); Crypto::WPA2Decrypter d;
+            d.add_decryption_keys(Crypto::WPA2Decrypter::addr_pair(HWAddress<6>(b.data()), HWAddress<6>(sa.data())), Crypto::WPA2::SessionKeys(Crypto::WPA2::SessionKeys::ptk_type(ptk.begin(), ptk.end()), true));
+            std::unique_ptr<PDU> p(Dot11::from_bytes(f.data(), (uint32_t)f.size())); bool ok = d.decrypt(*p); h = Hu(h, ok); if (ok) { PDU::serialization_type s2 = p->serialize(); h = H(h, s2.data(), s2.size()); }
+        }
         else if (op == "pmk") { Crypto::WPA2::SupplicantData sd(k.str("psk"), k.str("ssid")); h = H(h, sd.pmk().data(), sd.pmk().size()); h = Hs(h, sd.ssid()); }
         else if (op == "dns") {
             DNS d; d.id((uint16_t)k.num("id")); int n = (int)k.num("n"); for (int i = 0; i < n; ++i) { d.add_query(DNS::query(fmt("host%d.example%d.com", i, (int)k.num("id") % 7), DNS::A, DNS::INTERNET)); d.add_answer(DNS::resource(fmt("host%d.example.com", i), fmt("10.0.%d.%d", i, n), DNS::A, DNS::INTERNET, 300 + i)); }
@@ -310,7 +316,12 @@ struct ThrEngine : Engine {
                 switch (kind) {
                     case 0: case 1: { int dlt = dlts[cfg.below(7)]; gen::Frame f = gen::frame_for(wl, dlt); k.set("op", "parse").set("dlt", dlt).set("f", f.bytes); break; }
                     case 2: k.set("op", "frag").set("pl", wl.bytes((size_t)cfg.range(20, 400))).set("mtu", (int64_t)cfg.range(8, 120)).set("id", (int64_t)cfg.range(1, 65535)).set("ord", (int64_t)cfg.below(3)); break;
-                    case 3: if (cfg.chance(0.5)) { k.set("op", "pmk").set("psk", fmt("pass%llu", (unsigned long long)(cfg.next() % 100000))).set("ssid", fmt("net%llu", (unsigned long long)(cfg.next() % 1000))); break; }
+                    case 3: if (cfg.chance(0.35)) {   // a CCMP-protected data frame built by the independent implementation: 3- or 4-address, QoS or not, to/from the DS; the key is supplied directly
+                                wlan::DataSpec d; int shape = (int)cfg.below(4); d.to_ds = shape == 0 || shape == 3; d.from_ds = shape == 1 || shape == 3; d.qos = cfg.chance(0.6); d.tid = (uint8_t)cfg.below(16); d.seq = (uint16_t)cfg.below(4096); d.protected_ = true;
+                                Mac bss = Mac::of((uint8_t)(0x10 + t)), sta = Mac::of((uint8_t)(0x40 + t)), peer = Mac::of(0x77), peer2 = Mac::of(0x78); if (shape == 0) { d.a1 = bss; d.a2 = sta; d.a3 = peer; } else if (shape == 1) { d.a1 = sta; d.a2 = bss; d.a3 = peer; } else if (shape == 2) { d.a1 = peer; d.a2 = sta; d.a3 = bss; } else { d.a1 = bss; d.a2 = sta; d.a3 = peer; d.a4 = peer2; }
+                                Bytes ptk = wl.bytes(64), plain = wlan::llc_snap(0x88b5, wl.bytes((size_t)cfg.range(1, 120))); Bytes f = wlan::data_header(d); wlan::Frame fh = wlan::parse_dot11(f.data(), f.size()); Bytes body = wcrypto::ccmp_encrypt(&ptk[32], fh.hdr(), (uint64_t)cfg.range(1, 1 << 30), 0, plain); putb(f, body);
+                                k.set("op", "ccmp").set("f", f).set("ptk", ptk).set("bss", Bytes(bss.b, bss.b + 6)).set("sta", Bytes(sta.b, sta.b + 6)); break; }
+                            if (cfg.chance(0.5)) { k.set("op", "pmk").set("psk", fmt("pass%llu", (unsigned long long)(cfg.next() % 100000))).set("ssid", fmt("net%llu", (unsigned long long)(cfg.next() % 1000))); break; }
                             k.set("op", "wpa2").set("set", cfg.chance(0.4) ? "ccmp_packets" : cfg.chance(0.5) ? "tkip_packets" : "ccmp_qos_packets"); break;
                     case 4: k.set("op", "dns").set("id", (int64_t)cfg.range(0, 65535)).set("n", (int64_t)cfg.range(1, 6)); break;
                     case 5: k.set("op", "addr").setu("v", cfg.next() & 0xffffffffu); break;
